@@ -66,17 +66,28 @@ func readAll(text string) fastaRead {
 	var r fastaRead
 	r.panic = guard(func() {
 		sc := seqio.NewAutoScanner(strings.NewReader(text))
+		var seqs []gts.Sequence
+		var early [][]byte
 		for sc.Scan() {
 			seq := sc.Value()
+			seqs = append(seqs, seq)
+			early = append(early, append([]byte(nil), seq.Bytes()...))
+		}
+		if err := sc.Err(); err != nil {
+			r.err = err.Error()
+		}
+		// the records are read again after the whole stream has been scanned: a record must not change because a
+		// later one was read (callers such as gts sort collect all records first)
+		for i, seq := range seqs {
 			d, _ := seq.Info().(string)
 			if s, ok := seq.Info().(fmt.Stringer); ok {
 				d = s.String()
 			}
 			r.descs = append(r.descs, d)
 			r.datas = append(r.datas, append([]byte(nil), seq.Bytes()...))
-		}
-		if err := sc.Err(); err != nil {
-			r.err = err.Error()
+			if !bytes.Equal(r.datas[i], early[i]) && r.err == "" {
+				r.err = fmt.Sprintf("record %d read %q right after it was scanned and %q after the rest of the stream was scanned", i, clipStr(string(early[i]), 60), clipStr(string(r.datas[i]), 60))
+			}
 		}
 	})
 	return r
@@ -322,6 +333,23 @@ func TestC17(t *testing.T) {
 		}
 	}
 	e.done(true)
+	// read-size boundaries: the reader pulls its input in blocks; the first record's length is swept so that the next
+	// header (and every byte of the line break before it) falls on every offset around multiples of 4096
+	eb := enumPart(t, c17Prop, st, "read-boundary-sweep")
+	centers := []int{4096, 8192}
+	if thorough() {
+		centers = append(centers, 12288, 16384, 32768, 65536)
+	}
+	for _, ctr := range centers {
+		for n := ctr - 250; n <= ctr+150; n++ {
+			for _, cr := range []bool{false, true} {
+				if !eb.try(c17Case{Mode: "roundtrip", CRLF: cr, Recs: []c17Rec{{Desc: "d1 first record", Len: n, Seed: n, Step: 1}, {Desc: "second", Len: 61, Seed: 3, Step: 5}, {Desc: "", Len: n % 97, Seed: 1, Step: 1}, {Desc: "last", Len: 140, Seed: 2, Step: 1}}}) {
+					return
+				}
+			}
+		}
+	}
+	eb.done(true)
 	rapidPart(t, c17Prop, st, "rapid", pick(4000, 60000), c17Gen)
 }
 
